@@ -8,6 +8,7 @@ import Ubx.Model.PyConfigHosts
 import Ubx.Model.PyWalkHosts
 import Ubx.Model.PyDoHosts
 import Ubx.Model.PyCfgKeyHosts
+import Ubx.Model.PyStrHosts
 /-!
 # Line-protocol driver: one operation per input line, one answer per output line.
 The Python harness (tools/harness) sends the same operations to the real pyubx2 and diffs.
@@ -316,6 +317,35 @@ def pylConstruct (cls id : Bytes) (modeN : Nat) (bf : Bool) (kw : Kw) : String :
         | none => "pyl-error:" ++ nameStr c
     | (.error _, _) => "pyl-error:non-exception"
 
+/-- the message a `parse …` / `construct …` line denotes -/
+def msgOf (toks : List String) : Option (R Msg) :=
+  match toks with
+  | ["parse", mode, val, bf, h] => (unhex h).map (fun b => parse Gen.ctx (toNatD mode) (toNatD val) (bf = "1") b)
+  | "construct" :: cls :: id :: mode :: bf :: kind :: rest =>
+    (match unhex cls, unhex id with
+     | some c, some i =>
+       let kw : Option Kw :=
+         if kind = "E" then some .empty
+         else if kind = "P" then (rest.head?.bind unhex).map Kw.payload
+         else
+           let kws := rest.map parseKw
+           if kws.all Option.isSome then some (.attrs (kws.filterMap (fun x => x))) else none
+       kw.map (fun k => construct Gen.ctx c i (toNatD mode) (bf = "1") k)
+     | _, _ => none)
+  | _ => none
+
+/-- `pyl-str …`: the translated `__str__` run on the model's message -/
+def pylStr (m : Msg) : String :=
+  let ident := m.identity Gen.ctx
+  let c : Py.StrCfg := { cls := m.cls, id := m.id, payload := m.payload,
+                         nominal := (match ident with | .nominal => true | _ => false),
+                         monver := (match ident with | .known n => n == 0x4d4f4e2d564552 | _ => false),
+                         npriv := 9, env := m.env }
+  match (Py.runFn (Py.strHost c) pylFuel Gen.Code.fn_UBXMessage___str__ [.host .self] ()).1 with
+  | .ok _ => "str=ok"
+  | .error (.exc cl _) => if cl = Py.xUnsupported then "unsupported" else if cl = Py.xFuel then "diverges" else "str=" ++ nameStr cl
+  | .error _ => "pyl-error:non-exception"
+
 def handlePyl (toks : List String) : String :=
   match toks with
   | ["pyl-cksum", h] =>
@@ -374,6 +404,11 @@ def handlePyl (toks : List String) : String :=
         | some k => pylConstruct c i (toNatD mode) (bf = "1") k
         | none => "bad-op")
      | _, _ => "bad-op")
+  | "pyl-str" :: rest =>
+    (match msgOf rest with
+     | some (.ok m) => pylStr m
+     | some (.error _) => "nomsg"
+     | none => "bad-op")
   | ["pyl-cfgkey", k] =>
     (match (Py.runFn (Py.ckHost Gen.ctx) pylFuel Gen.Code.fn_cfgkey2name [.int (toNatD k)] ()).1 with
      | .ok (.tuple [.str n, .host (.ty t)]) => s!"ok {nameStr n} {tyStr t}"
@@ -446,6 +481,11 @@ def handle (line : String) : String :=
   | ["protocol", h] =>
     (match unhex h with
      | some b => (match protocol Gen.ctx.nmeaHdr2 b with | .ok v => s!"ok {v}" | .error e => s!"err {e}")
+     | none => "bad-op")
+  | "str" :: rest =>
+    (match msgOf rest with
+     | some (.ok m) => "str=" ++ (match m.strExc with | some e => toString e | none => "ok")
+     | some (.error _) => "nomsg"
      | none => "bad-op")
   | ["cfgkey", k] =>
     (match cfgkey2name Gen.ctx (toNatD k) with
